@@ -738,16 +738,17 @@ class Eval:
             obj, path = t
             key = (obj, key_of(path))
             s.accesses.append((mk_and([st.pc, g]), 'load', obj, path))
+            stg = st if is_true(g) else State(st.pcl + [g], st.mem, st.env, st.cnt)   # obligations hold under this alternative's guard
             if key in st.mem: v = st.mem[key]
             else:
-                v = s.sym_overlay(st, obj, path, ty)
+                v = s.sym_overlay(stg, obj, path, ty)
                 if v is None:
                     if key not in s.init_cache:
                         s.objinfo[key] = dict(path=path, ty=ty)
-                        s.init_cache[key] = s.load_initial(obj, path, ty, st)
+                        s.init_cache[key] = s.load_initial(obj, path, ty, stg)
                     elif obj.startswith('g:') and len(path) > 1:
                         gg = s.mod.globals.get(obj[2:])
-                        if gg is not None and (gg['init'] is None or not gg['const']): s.bounds_oblig(gg['ty'], path, st, obj[2:])
+                        if gg is not None and (gg['init'] is None or not gg['const']): s.bounds_oblig(gg['ty'], path, stg, obj[2:])
                     v = s.init_cache[key]
             res = v if first else ite(g, v, res); first = False
         if first: raise Unsupported('load with no live target ' + text)
